@@ -555,6 +555,7 @@ class World:
         return z3.UGE(az, bz)
 
     def advance(self, d):
+        self.ex.event(ev="clock", d_raw=d)
         self.acc(("clock",), True)
         self.now = self.now + d
         if not isinstance(self.now, int):
@@ -636,6 +637,7 @@ class World:
         t.self_wake = False
         cx = Opaque("Context", t.id)
         self.cur_fp = {}
+        self.ex.event(ev="poll", task=t.name)
         try:
             r = self.poll_future(it, t.fut, cx)
         except RustPanic as p:
@@ -676,6 +678,16 @@ class World:
                     if c.value is not MOVED:
                         v, c.value = c.value, MOVED
                         it.drop_value(v)
+
+    def finish_external_task(self, t, how, value=None):
+        """environment action: a task spawned by a handler ends (finished with a value / panicked / aborted)"""
+        if t.state != "running":
+            return
+        t.state = {"finish": "finished", "panic": "panicked", "abort": "cancelled"}[how]
+        t.result = value
+        self.acc(("task", t.id), True)
+        self.touch()
+        self.ex.event(ev="external_task_end", task=t.id, how=how)
 
     def runnable(self, t):
         if t.state != "running" or t.fut is None:
